@@ -56,6 +56,24 @@ func AdaptType(s string) interface{} {
 	return f
 }
 
+// AdaptValue adapts the type of a value that is about to be stored.
+// The value is only stored as an int or a float64 when that preserves its bytes, i.e. when printing the
+// number gives back exactly the string that was written ("12", "-3", "1.5"); anything else
+// ("007", "+5", "1e3", "1.50") is kept as the string it is.
+func AdaptValue(s string) interface{} {
+	switch v := AdaptType(s).(type) {
+	case int:
+		if strconv.Itoa(v) == s {
+			return v
+		}
+	case float64:
+		if strconv.FormatFloat(v, 'f', -1, 64) == s && fmt.Sprint(v) == s {
+			return v
+		}
+	}
+	return s
+}
+
 func Decode(raw []byte) ([]string, error) {
 	reader := resp.NewReader(bytes.NewReader(raw))
 
